@@ -114,8 +114,8 @@ def run_closed_loop(cfg: Dict[str, Any], telegrams: List[List[Any]], sched_seed:
     cur = [0]
 
     def on_send(msg) -> None:
-        res.sent_by_nut.append((cur[0], msg.arbitration_id, bytes(msg.data)))
-        pending["nut"].append((msg.arbitration_id, bytes(msg.data)))
+        res.sent_by_nut.append((cur[0], W.wire_id(msg), bytes(msg.data)))
+        pending["nut"].append((W.wire_id(msg), bytes(msg.data)))
 
     bus = SimBus(lambda: None, on_send)
     kind = cfg.get("kind", "passive")
